@@ -253,6 +253,17 @@ func c02Run(j vs.Job) *vs.JobResult {
 				break
 			}
 		}
+		// multi-byte faults: every protocol line of either direction repeated, and lost, as a whole
+		for _, f := range fields {
+			for _, kind := range []string{"dupline", "delline"} {
+				if k%p.NShards == p.Shard {
+					if !run([]wFault{{f.dir, f.off, kind}}) {
+						return r
+					}
+				}
+				k++
+			}
+		}
 	} else {
 		// pairs: each fault at the first byte of a protocol line (every line of either direction)
 	outer:
@@ -286,7 +297,7 @@ func init() {
 		ID:    "C02",
 		Level: "fault_enumeration",
 		Rule: "single faults {flip bit 0, flip bit 5, delete, duplicate, insert LF, insert 'A', truncate from here} at every offset of either direction outside DATA payloads and, inside payloads, at the first/last 24 bytes and every 61st byte; " +
-			"thorough adds pairs of faults on the second byte of every pair of protocol lines; per configuration; non-trivial = the faulted run did not simply succeed on both sides",
+			"every protocol line repeated and lost as a whole; thorough adds pairs of faults on the second byte of every pair of protocol lines; per configuration; non-trivial = the faulted run did not simply succeed on both sides",
 		Assumptions: []string{"same trusted base as C01", "a hang or a crash caused by a fault is counted in the outcomes here and decided by C11 / C12", "content saved under another name is not a C02 violation (the statement is about content)"},
 		QuickBudget: 110, ThoroughBudget: 1200, DiedIsViolation: false,
 		Jobs: func(tier string) []vs.Job {
